@@ -22,7 +22,13 @@
    Messages are integers chosen by the harness (pickling is not modelled).
    Ghost state (never read by the programs): per process plog (messages appended to its
    buffer, in order) and slog (messages its feeder sent, in order); sendlog (all messages sent
-   to the pipe, in order) and getlog (all messages received, in order). *)
+   to the pipe, in order, each tagged with the process whose feeder wrote it) and getlog (all
+   messages received, in order).
+   Failure of the feeder: `obj = ForkingPickler.dumps(obj)` raises for unpicklable messages;
+   in Queue._feed the handler `except Exception` is OUTSIDE `while 1`, so the thread's function
+   returns (QExit): the popped message and its capacity token are gone with it.
+   Deadlines: `timeout = deadline - monotonic()` is a scheduling point (QClock) whose outcome
+   (time left / deadline passed) is chosen by the scheduler. *)
 From Coq Require Import ZArith List Bool.
 From BV Require Import Model.SemProg.
 Import ListNotations.
@@ -41,11 +47,15 @@ Inductive qinstr :=
 | QSend (r : nat)                     (* send_bytes(reg r) *)
 | QRecv (dst : nat)                   (* dst := recv_bytes()      (blocks while empty) *)
 | QPoll (timed : flag) (dst : nat)    (* dst := poll([timeout]) *)
+| QClock (dst : nat)                  (* timeout = deadline - monotonic(); dst := (timeout < 0), an oracle *)
+| QExit                               (* the thread's function has returned (Queue._feed after `except Exception`):
+                                         the thread never runs again; its frame is kept as ghost state *)
 (* local instructions *)
 | QStart                              (* if self._thread is None: self._start_thread() *)
 | QBufAppend (r : nat)                (* self._buffer.append(reg r) *)
 | QBufPop (dst : nat) (epc : nat)     (* dst := bpopleft(); IndexError -> goto epc *)
 | QBufNonEmptyJ (pc : nat)            (* if buffer: goto pc *)
+| QDumps (r : nat) (epc : nat)        (* obj = ForkingPickler.dumps(obj); an exception -> goto epc *)
 | QWInc | QWDec | QWJz (pc : nat)     (* _notempty's waiter count *)
 | QAssertNZ (r : nat) | QAssertZ (r : nat) | QAssertMine (s : sref)
 | QCount (s : sref) (dst : nat)
@@ -53,6 +63,12 @@ Inductive qinstr :=
 | QJmp (pc : nat) | QJz (r : nat) (pc : nat) | QJnz (r : nat) (pc : nat) | QJge (a b : nat) (pc : nat)
 | QRaise (code : Z)
 | QRet (v : rv).
+
+(* Messages are integers chosen by the harness.  Serialisation is modelled only as far as it can
+   FAIL: ForkingPickler.dumps raises for the messages >= UNPICKLABLE (the harness puts objects
+   whose __reduce__ raises for them) and is the identity otherwise. *)
+Definition UNPICKLABLE : Z := 1000.
+Definition picklable (m : Z) : bool := m <? UNPICKLABLE.
 
 Record pstate := mkP { buf : list Z; nw : Z; started : bool; plog : list Z; slog : list Z }.
 Definition dps : pstate := mkP [] 0 false [] [].
@@ -79,7 +95,8 @@ Fixpoint qlocal (p : nat) (prog : list qinstr) (h : list Z) (fuel : nat) (pc : n
     | None => (QLFin E_STUCK, ps)
     | Some i =>
       match i with
-      | QAcq _ _ _ _ | QRel _ | QIsZero _ _ | QSend _ | QRecv _ | QPoll _ _ => (QLSem pc r, ps)
+      | QAcq _ _ _ _ | QRel _ | QIsZero _ _ | QSend _ | QRecv _ | QPoll _ _ | QClock _ | QExit => (QLSem pc r, ps)
+      | QDumps x e => if picklable (getr x r) then qlocal p prog h f (S pc) r ps else qlocal p prog h f e r ps
       | QStart => qlocal p prog h f (S pc) r (mkP (buf ps) (nw ps) true (plog ps) (slog ps))
       | QBufAppend x => qlocal p prog h f (S pc) r
                                (mkP (buf ps ++ [getr x r]) (nw ps) (started ps) (plog ps ++ [getr x r]) (slog ps))
@@ -134,7 +151,7 @@ Record qsys := mkQS {
   qthr : list qthread;
   pipe : list Z;
   procs : list pstate;
-  sendlog : list Z;
+  sendlog : list (nat * Z);      (* (producer process, message), in the order of the writes *)
   getlog : list Z
 }.
 
@@ -165,10 +182,12 @@ Definition qabort (t : qthread) (h : list Z) (e : Z) (ps : pstate) : qthread * p
   qstart (qproc t) (qfeeder t) h ((qcur t, e) :: qresults t) (qscript t) ps.
 
 (* event = (thread, object, op, result): objects 0.. = semaphore ids, 100 = the pipe;
-   op 0 acquire, 1 release, 2 is_zero, 3 send (result = message), 4 recv (message), 5 poll *)
+   op 0 acquire, 1 release, 2 is_zero, 3 send (result = message), 4 recv (message), 5 poll;
+   101 = the clock, op 6 = remaining time computed (result 1 = the deadline has passed) *)
 Definition PIPE : nat := 100.
+Definition CLOCK : nat := 101.
 
-Definition commit (g : qsys) (i : nat) (ss : list sem) (pp : list Z) (sl gl : list Z)
+Definition commit (g : qsys) (i : nat) (ss : list sem) (pp : list Z) (sl : list (nat * Z)) (gl : list Z)
            (x : qthread * pstate) : qsys :=
   let '(t', ps') := x in
   mkQS ss (upd (qthr g) i t') pp (updp (procs g) (qproc t') ps') sl gl.
@@ -225,7 +244,7 @@ Definition qstep (g : qsys) (i : nat) (go : bool) : option (qsys * event) :=
     | Some (QSend x) =>
       if go then
         let m := getr x (qrg t) in
-        Some (commit g i (qsems g) (pipe g ++ [m]) (sendlog g ++ [m]) (getlog g)
+        Some (commit g i (qsems g) (pipe g ++ [m]) (sendlog g ++ [(p, m)]) (getlog g)
                      (qadvance t (S (qpc t)) (qrg t) (qheld t)
                                (mkP (buf ps) (nw ps) (started ps) (plog ps) (slog ps ++ [m]))),
               (i, PIPE, 3, m))
@@ -253,9 +272,18 @@ Definition qstep (g : qsys) (i : nat) (go : bool) : option (qsys * event) :=
         Some (commit g i (qsems g) (pipe g) (sendlog g) (getlog g)
                      (qadvance t (S (qpc t)) (setr d 0 (qrg t)) (qheld t) ps), (i, PIPE, 5, 0))
       else None
-    | _ => None
+    | Some (QClock d) =>
+      (* the deadline is an oracle: go = there is time left, not go = it has passed *)
+      let z := if go then 0 else 1 in
+      Some (commit g i (qsems g) (pipe g) (sendlog g) (getlog g)
+                   (qadvance t (S (qpc t)) (setr d z (qrg t)) (qheld t) ps), (i, CLOCK, 6, z))
+    | _ => None         (* QExit: the thread is gone; local instructions are never the current one *)
     end
   end.
+
+(* the thread has left its function for good (a feeder whose _feed returned) *)
+Definition qexited (t : qthread) : bool :=
+  negb (qfin t) && match nth_error (code (qcid t)) (qpc t) with Some QExit => true | _ => false end.
 
 Fixpoint qrun (g : qsys) (sched : list (nat * bool)) : qsys * list event * bool :=
   match sched with
